@@ -26,6 +26,7 @@ def run(ctx):
     from .common import MultiAlias
     c02.write_table(ctx, "C19.R2")
     c02.restart_head(ctx, "C19.R2")      # the status that is logged is the status line that was sent, also after a restarted start_response
+    c02.late_oserror(ctx, "C19.R1")
     c02.late_error(ctx, "C19.R1")        # a late failure does not reach handle_error (which would log the request a second time)
     c05.stale_request(MultiAlias(ctx, {"C05.R2": "C19.R1"}))
     c05.stale_to_handle_error(MultiAlias(ctx, {"C05.R2": "C19.R1"}))
